@@ -135,7 +135,7 @@ class Obs:
 
 
 SAN_RE = re.compile(r'ERROR: (AddressSanitizer|LeakSanitizer|ThreadSanitizer|UndefinedBehaviorSanitizer): ([^\n]*)')
-FRAME_RE = re.compile(r'#\d+ 0x[0-9a-f]+ in (\S+) (\S+?):(\d+)')
+FRAME_RE = re.compile(r'#\d+ 0x[0-9a-f]+ in (\S+) (/[^\s:()]+)((?::\d+)*)')
 UB_RE = re.compile(r'^(\S+?):(\d+):(\d+): runtime error: (.*)$', re.M)
 
 
